@@ -261,6 +261,9 @@ func runC11(c *Ctx) {
 	c.Rule("C11.1", "every non-constant index into a fixed-size lookup table is proven in range", 3)
 	checkTableLookups(c, "C11.1")
 
+	// ---------------------------------------------------------------- C11.14
+	runC11ConstIndex(c)
+
 	// ---------------------------------------------------------------- C11.2
 	c.Rule("C11.2", "calls through nil-able collaborators are justified", 12)
 	cells := collaboratorCells(p)
@@ -967,7 +970,18 @@ func runC11(c *Ctx) {
 		for _, call := range Calls(fn) {
 			cc := call.Common()
 			if cc.IsInvoke() && N(cc.Method) == "WriteHeader" && isNamed(cc.Value.Type(), "net/http", "ResponseWriter") {
-				c.Check(allowedWH[FuncName(fn)], "C11.5", FuncName(fn), "who-calls:WriteHeader", call.Pos(),
+				okWH := allowedWH[FuncName(fn)]
+				if !okWH && fn.Signature.Recv() != nil && isPtrTo(fn.Signature.Recv().Type(), RootPath, "responseWriter") {
+					// the body of a flusher that was split into 'guard + body': a method of the
+					// response writer all of whose callers are designated sites
+					okWH = len(p.Callers(fn)) > 0
+					for _, e := range p.Callers(fn) {
+						if !allowedWH[FuncName(e.Caller)] {
+							okWH = false
+						}
+					}
+				}
+				c.Check(okWH, "C11.5", FuncName(fn), "who-calls:WriteHeader", call.Pos(),
 					"designated call site of the underlying WriteHeader", "the underlying ResponseWriter.WriteHeader is called outside the designated sites: a second response head can be emitted")
 				if fn == flushHeaders {
 					g := false
@@ -1303,4 +1317,163 @@ func runC11CloseUnblocks(c *Ctx) {
 			"the wrapped body is closed on every path before the mutex is taken",
 			"Close takes the adapter's mutex before closing the wrapped body ("+witnessString(p, path)+"): while a Read is blocked on the client holding that mutex, Close waits for it instead of interrupting it - a handler that closes the body to stop its reader goroutine hangs (bidi streams through grpc-go)")
 	}
+}
+
+// runC11ConstIndex: C11.14 (seed C11h).  x[0], x[k] and x[len(x)-1] on a slice or string whose
+// length the peer controls panic when it is shorter.  At request time every such access is
+// dominated by a test that proves the length (len(x) > k, != 0, == c, >= c ...), or the operand has
+// a length known by construction.  Other index shapes (loop variables) are left to the compiler's
+// bounds check and C11.1's table rule; they are counted, not judged.
+func runC11ConstIndex(c *Ctx) {
+	p := c.P
+	c.Rule("C11.14", "constant and last-element indexes into strings and byte slices are dominated by a length test", 8)
+	reach := p.RequestTimeReach()
+	judged, skipped := 0, 0
+	for _, fn := range SortedFuncs(reach) {
+		if !p.inScope(fn) {
+			continue
+		}
+		ord := 0
+		ForEachInstr(fn, func(in ssa.Instruction) {
+			var x, idx ssa.Value
+			switch a := in.(type) {
+			case *ssa.IndexAddr:
+				x, idx = a.X, a.Index
+			case *ssa.Index:
+				x, idx = a.X, a.Index
+			case *ssa.Lookup:
+				if _, isMap := a.X.Type().Underlying().(*types.Map); isMap {
+					return
+				}
+				x, idx = a.X, a.Index
+			default:
+				return
+			}
+			// text whose length the peer controls: strings and byte slices (slices of other
+			// element types are built by the library itself; arrays are checked at compile
+			// time or by C11.1)
+			switch xt := x.Type().Underlying().(type) {
+			case *types.Slice:
+				if b, isB := xt.Elem().Underlying().(*types.Basic); !isB || b.Kind() != types.Uint8 {
+					return
+				}
+			case *types.Basic:
+				if xt.Info()&types.IsString == 0 {
+					return
+				}
+			default:
+				return
+			}
+			// which shape?
+			var need int64 = -1 // length must exceed this
+			if k, isK := ConstInt(idx); isK {
+				need = k
+			} else if bo, isBo := idx.(*ssa.BinOp); isBo && bo.Op == token.SUB {
+				if k, isK := ConstInt(bo.Y); isK && k >= 1 && isLenOfVal(bo.X, x) {
+					need = k - 1
+				}
+			}
+			if need < 0 {
+				skipped++
+				return
+			}
+			judged++
+			ord++
+			// length known by construction
+			okLen := false
+			switch d := strip(x).(type) {
+			case *ssa.MakeSlice:
+				if k, isK := ConstInt(d.Len); isK && k > need {
+					okLen = true
+				}
+			case *ssa.Slice:
+				if _, isArr := d.X.Type().Underlying().(*types.Pointer); isArr && d.High == nil && d.Low == nil {
+					okLen = true // arr[:]
+				}
+				if d.High != nil && d.Low == nil {
+					if k, isK := ConstInt(d.High); isK && k > need {
+						okLen = true
+					}
+				}
+			case *ssa.Const:
+				if s2, isS := ConstString(d); isS && int64(len(s2)) > need {
+					okLen = true
+				}
+			}
+			// a dominating fact about len(x)
+			if !okLen {
+				for _, f := range p.FactsAtInter(in.Block()) {
+					cmp, ok := f.AsCmp()
+					if !ok {
+						continue
+					}
+					a, b, op := cmp.X, cmp.Y, cmp.Op
+					// x != "" (or the false edge of x == "")
+					if s2, isS := ConstString(b); isS && s2 == "" && op == token.NEQ && need == 0 {
+						if a == x || strip(a) == strip(x) || (PathOf(a) != "" && PathOf(a) == PathOf(x) && !strings.HasPrefix(PathOf(a), "v:")) {
+							okLen = true
+						}
+					}
+					if isLenOfVal(b, x) {
+						a, b, op = b, a, flip(op)
+					}
+					if !isLenOfVal(a, x) {
+						continue
+					}
+					k, isK := ConstInt(b)
+					if !isK {
+						continue
+					}
+					switch op {
+					case token.GTR:
+						okLen = okLen || k >= need
+					case token.GEQ:
+						okLen = okLen || k > need
+					case token.NEQ:
+						okLen = okLen || (k == 0 && need == 0)
+					case token.EQL:
+						okLen = okLen || k > need
+					}
+				}
+			}
+			construct := "index"
+			if ord > 1 {
+				construct += "|#" + itoa(ord)
+			}
+			c.Check(okLen, "C11.14", FuncName(fn), construct, in.Pos(),
+				"the access is dominated by a test (or a construction) that proves the operand is long enough",
+				"an element at a fixed position (or the last element) of a slice/string is read without a dominating test of its length: an empty or short value from the peer makes this index panic out of ServeHTTP")
+		})
+	}
+	c.Note("C11.14: %d fixed-position accesses judged, %d accesses with other index shapes left to C11.1 / the compiler's bounds checks", judged, skipped)
+	if judged == 0 {
+		c.Bad("C11.14", "request-time code", "index", token.NoPos, "no fixed-position access found: shape changed")
+	}
+}
+
+// isLenOfVal: v is len(x) for the same value x (same SSA value, same access path, or a
+// conversion between string and []byte of it).
+func isLenOfVal(v, x ssa.Value) bool {
+	call, ok := strip(v).(*ssa.Call)
+	if !ok || CalleeName(call) != "builtin len" {
+		return false
+	}
+	a := call.Call.Args[0]
+	same := func(a, b ssa.Value) bool {
+		if a == b || strip(a) == strip(b) {
+			return true
+		}
+		pa, pb := PathOf(a), PathOf(b)
+		return pa != "" && pa == pb && !strings.Contains(pa, "?") && !strings.HasPrefix(pa, "v:")
+	}
+	if same(a, x) {
+		return true
+	}
+	if cv, ok := x.(*ssa.Convert); ok && same(a, cv.X) {
+		return true
+	}
+	if cv, ok := a.(*ssa.Convert); ok && same(cv.X, x) {
+		return true
+	}
+	return false
 }
